@@ -50,7 +50,7 @@ fn c01_attr_value_parse() {
 // @props C01
 // @tier thorough
 // @class attempt
-// @timeout 3600
+// @timeout 1200
 // @mem 10
 // @units AttrValue::{parse, parse_visible_string}, core::str::from_utf8
 // @bounds visible string attribute with 0..=3 arbitrary payload bytes: never a panic; accepted => the bytes are valid UTF-8 of the declared length
